@@ -3,7 +3,7 @@
    correspondence run (reference oracle on the implementation side). *)
 From Coq Require Import ZArith List Bool Lia.
 From MV Require Import Ast Eval Scalar Machine.
-From MV.Proofs Require Import Arith Logic Prim View OpsLocal Guards Drops DrainIt IntoIt FilterIt Core Refine DrainAbs IterAt Grow IntoAbs.
+From MV.Proofs Require Import Arith Logic Prim View OpsLocal Guards Drops DrainIt IntoIt FilterIt Core Refine DrainAbs IterAt Grow IntoAbs FilterAt.
 Import ListNotations.
 Open Scope Z_scope.
 
@@ -213,3 +213,24 @@ Theorem C10_into_iter_whole_life_follows_the_cursor :
   post (into_whole cfg v steps s) (fun r s' => r = fst (cursor l steps) /\ Q s') Q.
 Proof. exact into_abs. Qed.
 Print Assumptions C10_into_iter_whole_life_follows_the_cursor.
+
+(* DrainFilter::next as it runs on the iterator OBJECT -- the function the translated body is re-proved
+   equal to on every run (EquivFilter.v) and that the correspondence run executes -- is, on a well-formed
+   iterator, the value-passing filter_next of C10_drain_filter_next_follows_the_script followed by
+   storing the new iterator value; it never runs out of its fuel, a predicate panic leaves `panicked`
+   set in the object and the answer consumed, and the checked increments of pos / new_len never
+   overflow. *)
+Theorem C10_drain_filter_next_on_the_object :
+  forall cfg, cfg_ok cfg -> forall fuel f sv i b orig kept,
+  finv cfg sv f b orig kept -> (Z.to_nat (f_old f - f_pos f) < fuel)%nat ->
+  exists r f' sv',
+    filter_next cfg fuel f sv = (Val (r, f'), sv') /\
+    filter_next_at cfg fuel i (with_iter sv i (IFilter f)) = (opt_of r, with_iter sv' i (IFilter f')).
+Proof. exact filter_next_at_eq. Qed.
+Theorem C10_drain_filter_next_never_runs_out_of_fuel :
+  forall cfg, cfg_ok cfg -> forall fuel f sv i b orig kept,
+  finv cfg sv f b orig kept -> (Z.to_nat (f_old f - f_pos f) < fuel)%nat ->
+  fst (filter_next_at cfg fuel i (with_iter sv i (IFilter f))) <> OutOfFuel.
+Proof. exact filter_next_at_fuel. Qed.
+Print Assumptions C10_drain_filter_next_on_the_object.
+Print Assumptions C10_drain_filter_next_never_runs_out_of_fuel.
